@@ -1,0 +1,47 @@
+//go:build verif
+
+package middleware
+
+// Instrumentation for the verification harness (build tag `verif`).  Add-only: with the tag
+// off this file is not compiled and nothing in the package changes.
+
+import (
+	"bufio"
+	"io"
+	"sync"
+	"time"
+)
+
+// VerifSetClock replaces the unexported clock of a RateLimiterMemoryStore.  The store then
+// behaves as if it had been constructed at the instant `now()` currently reports
+// (NewRateLimiterMemoryStoreWithConfig reads the clock once, for lastCleanup).
+func VerifSetClock(store *RateLimiterMemoryStore, now func() time.Time) {
+	store.mutex.Lock()
+	defer store.mutex.Unlock()
+	store.timeNow = now
+	store.lastCleanup = now()
+}
+
+// VerifStoreLocked reports whether the store's mutex is held at the moment of the call.  The
+// harness calls it from inside the injected clock to tell the readings Allow takes under
+// the mutex from the one it takes for AllowN after Unlock.
+func VerifStoreLocked(store *RateLimiterMemoryStore) bool {
+	if store.mutex.TryLock() {
+		store.mutex.Unlock()
+		return false
+	}
+	return true
+}
+
+// VerifSetRandomSource makes randomString draw its bytes from r instead of crypto/rand:
+// the pool of buffered readers is replaced by a fresh pool whose readers wrap r.  The
+// returned function restores the previous pool.  Global: callers must serialise.
+func VerifSetRandomSource(r io.Reader) (restore func()) {
+	prevNew := randomReaderPool.New
+	randomReaderPool = sync.Pool{New: func() interface{} {
+		return bufio.NewReader(r)
+	}}
+	return func() {
+		randomReaderPool = sync.Pool{New: prevNew}
+	}
+}
